@@ -11,6 +11,9 @@ package pki
 // list with one storage write" (CRL encoding, signing, numbering, per-issuer grouping are outside the claim).
 //
 //vx:pkg github.com/openbao/openbao/v2/internal/builtin/logical/pki
+//vx:assume storage is an association list with at most one failing call; JSON (de)serialisation is a box; x509 parsing is a registry of certificate objects; a certificate's serial is its Subject.SerialNumber string; signature verification is RawIssuer/RawSubject linkage
+//vx:assume buildCRLs is modelled as: collect entries with the REAL getLocalRevokedCertEntries, persist the list with one storage write (CRL encoding, signing, numbering, per-issuer grouping are outside the claim)
+//vx:assume the CRL read path is modelled as rebuildIfForced followed by a storage read (cert_util.go fetchCertBySerial order)
 //vx:redirect (*github.com/openbao/openbao/sdk/v2/framework.Backend).System vxSystem
 //vx:redirect github.com/openbao/openbao/v2/internal/builtin/logical/pki.serialFromCert vxSerialFromCert
 //vx:redirect github.com/openbao/openbao/v2/internal/builtin/logical/pki.fetchIssuerMapForRevocationChecking vxIssuerMap
